@@ -24,7 +24,7 @@ func (c16) Budget(tier string) int {
 	if tier == "thorough" {
 		return 40000
 	}
-	return 1210
+	return 12100
 }
 
 func (c16) Describe() engine.Info {
